@@ -142,6 +142,30 @@ pub fn inputs(seed: u64, tier: Tier) -> Vec<In> {
             all.push(In { label: format!("xz block declaring {} spare byte(s) {:#04x} after the LZMA2 end byte (sizes and index consistent), check {}", extra, val, check), fmt: Fmt::Xz, opts: Opts::default(), bytes: xz::build(&f).0 });
         }
     }
+    // index integers written with more bytes than needed (9 bytes: the longest legal; 10 bytes: over-long), index CRC,
+    // padding and backward size consistent: whatever the verdict, it is the same under every fragmentation
+    {
+        let (p, plain) = payload(0, 1, 3);
+        let base = XzFile { check_id: 1, blocks: vec![Block { payload: p, plain, ..Default::default() }], ..Default::default() };
+        let (_, spans) = xz::build(&base);
+        let _ = spans;
+        for nbytes in [2usize, 5, 9, 10] {
+            let mut g = base.clone();
+            g.o_index_count = Some(xz::mbi_n(1, nbytes));
+            all.push(In { label: format!("xz index record count written in {} bytes", nbytes), fmt: Fmt::Xz, opts: Opts::default(), bytes: xz::build(&g).0 });
+            let (b0, _) = xz::build(&base);
+            // record sizes: take the true values from a strict parse of the base and re-encode them wide
+            if let xz::Vx::Ok(_) = xz::strict_parse(&b0) {
+                let unpadded = {
+                    // header (12) + payload + check (4)
+                    12 + base.blocks[0].payload.len() as u64 + 4
+                };
+                let mut g2 = base.clone();
+                g2.o_records = Some(vec![(xz::mbi_n(unpadded, nbytes), xz::mbi_n(base.blocks[0].plain.len() as u64, nbytes))]);
+                all.push(In { label: format!("xz index record sizes written in {} bytes each", nbytes), fmt: Fmt::Xz, opts: Opts::default(), bytes: xz::build(&g2).0 });
+            }
+        }
+    }
     for v in valid {
         let n = v.bytes.len();
         let npos = tier.pick(5usize, 12usize);
